@@ -400,49 +400,67 @@ func main() {
 						for _, second := range small {
 							for _, e2 := range endings[:4] {
 								c, first, e1, second, e2 := c, first, e1, second, e2
-								t.Do(func() string {
-									return fmt.Sprintf("compressor=%s first=%s ending=%s; Reset; second=%s ending=%s", c.name, first.name, e1, second.name, e2)
-								}, func() *explore.Fail {
-									d1 := env.NewDst()
-									if e1 == "Flush-on-failing-destination" {
-										d1.FailAt = 0
+								for _, style := range []string{"Write", "NewWriter(nil), Reset per message, io.Copy"} {
+									style := style
+									if style != "Write" && len(first.data) > 5 {
+										continue
 									}
-									w := wsflate.NewWriter(d1, c.mk)
-									w.Write(first.data)
-									for _, e := range strings.Split(e1, "+") {
-										switch e {
-										case "Flush", "Flush-on-failing-destination":
-											w.Flush()
-										case "Close":
-											w.Close()
+									t.Do(func() string {
+										return fmt.Sprintf("compressor=%s first=%s ending=%s; Reset; second=%s ending=%s; messages written by %s", c.name, first.name, e1, second.name, e2, style)
+									}, func() *explore.Fail {
+										d1 := env.NewDst()
+										if e1 == "Flush-on-failing-destination" {
+											d1.FailAt = 0
 										}
-									}
-									d := env.NewDst()
-									w.Reset(d)
-									if n, err := w.Write(second.data); err != nil || n != len(second.data) {
-										return explore.Failf("write-error-after-Reset", "n=%d err=%v", n, err)
-									}
-									for _, e := range strings.Split(e2, "+") {
-										var err error
-										if e == "Flush" {
-											err = w.Flush()
+										w := wsflate.NewWriter(d1, c.mk)
+										if style != "Write" {
+											// the README's loop: the writer is made once without a destination; an empty
+											// message passes through io.Copy without a single Write call
+											w = wsflate.NewWriter(nil, c.mk)
+											w.Reset(d1)
+											io.Copy(w, bytes.NewReader(first.data))
 										} else {
-											err = w.Close()
+											w.Write(first.data)
 										}
+										for _, e := range strings.Split(e1, "+") {
+											switch e {
+											case "Flush", "Flush-on-failing-destination":
+												w.Flush()
+											case "Close":
+												w.Close()
+											}
+										}
+										d := env.NewDst()
+										w.Reset(d)
+										if style != "Write" {
+											if n, err := io.Copy(w, bytes.NewReader(second.data)); err != nil || int(n) != len(second.data) {
+												return explore.Failf("write-error-after-Reset", "io.Copy: n=%d err=%v", n, err)
+											}
+										} else if n, err := w.Write(second.data); err != nil || n != len(second.data) {
+											return explore.Failf("write-error-after-Reset", "n=%d err=%v", n, err)
+										}
+										for _, e := range strings.Split(e2, "+") {
+											var err error
+											if e == "Flush" {
+												err = w.Flush()
+											} else {
+												err = w.Close()
+											}
+											if err != nil {
+												return explore.Failf("ending-error-after-Reset:"+e2, "%v", err)
+											}
+										}
+										full := append(append([]byte{}, d.Bytes()...), tail...)
+										out, _, err := refmodel.Inflate(full)
 										if err != nil {
-											return explore.Failf("ending-error-after-Reset:"+e2, "%v", err)
+											return explore.Failf("second-message-does-not-inflate:"+e2, "%x: %v", full, err)
 										}
-									}
-									full := append(append([]byte{}, d.Bytes()...), tail...)
-									out, _, err := refmodel.Inflate(full)
-									if err != nil {
-										return explore.Failf("second-message-does-not-inflate:"+e2, "%x: %v", full, err)
-									}
-									if !bytes.Equal(out, second.data) {
-										return explore.Failf("second-message-inflates-to-other-bytes:"+e2, "got %d bytes want %d", len(out), len(second.data))
-									}
-									return readBack(d.Bytes(), second.data, deliveries(false)[0])
-								})
+										if !bytes.Equal(out, second.data) {
+											return explore.Failf("second-message-inflates-to-other-bytes:"+e2, "got %d bytes want %d", len(out), len(second.data))
+										}
+										return readBack(d.Bytes(), second.data, deliveries(false)[0])
+									})
+								}
 							}
 						}
 					}
@@ -711,7 +729,9 @@ func main() {
 				b := bigs[i]
 				for _, lv := range []int{1, 6, 9} {
 					lv := lv
-					t.Do(func() string { return fmt.Sprintf("%s, compressor level %d: Writer, then Reader and the inflating helpers", b.name, lv) }, func() *explore.Fail {
+					t.Do(func() string {
+						return fmt.Sprintf("%s, compressor level %d: Writer, then Reader and the inflating helpers", b.name, lv)
+					}, func() *explore.Fail {
 						var cb bytes.Buffer
 						w := wsflate.NewWriter(&cb, func(w io.Writer) wsflate.Compressor {
 							f, _ := flate.NewWriter(w, lv)
@@ -962,7 +982,9 @@ func main() {
 			for _, p := range payloads(false) {
 				for _, firstEnding := range []string{"Flush", "Close", "Flush+Close"} {
 					p, firstEnding := p, firstEnding
-					t.Do(func() string { return fmt.Sprintf("compressor turns bad after Reset: first message ended by %s, second payload=%s", firstEnding, p.name) }, func() *explore.Fail {
+					t.Do(func() string {
+						return fmt.Sprintf("compressor turns bad after Reset: first message ended by %s, second payload=%s", firstEnding, p.name)
+					}, func() *explore.Fail {
 						d1 := env.NewDst()
 						w := wsflate.NewWriter(d1, func(cw io.Writer) wsflate.Compressor {
 							f, _ := flate.NewWriter(cw, 6)
